@@ -2195,16 +2195,14 @@ class BaseInterpreter(Generic[TContext, TEvent]):
                 #    `onDone` silently never fired.
                 if region.type == "history":
                     continue
-                active_in_region = [
-                    d
-                    for d in self._active_state_nodes
-                    if self._is_descendant(d, region)
-                ]
                 # If a region is not active, the parallel state is not done.
-                if not active_in_region:
+                if region not in self._active_state_nodes:
                     return False
-                # The region itself is "done" if any of its active states are done.
-                if not any(self._is_state_done(d) for d in active_in_region):
+                # 🧩 The region must ITSELF be done. Accepting "any active
+                #    descendant is done" let one finished sub-region of a
+                #    nested parallel state complete the whole outer region
+                #    while its sibling sub-region was still running.
+                if not self._is_state_done(region):
                     return False
             # If all regions passed the check, the parallel state is done.
             return True
